@@ -106,6 +106,8 @@ Step == /\ l <= Len(T.ev) /\ l' = l + 1 /\ tid' = tid
              [] e.k = "resend" -> /\ verdict' = ResendClause(e)
                                   /\ failed' = IF Truthy(e.res) THEN None ELSE failed
              [] e.k = "stream" -> verdict' = StreamClause(e) /\ failed' = None
+             [] e.k = "txread" -> /\ verdict' = (IF Len(e.air) > 0 THEN <<"C02.OnlyOwnPayload", "reading the RX FIFO transmitted something">> ELSE <<"ok", "">>)
+                                  /\ failed' = failed       \* reading ACK payloads does not touch the failed payload
              [] e.k = "drain" -> verdict' = DrainClause(e, T.ev[l - 1]) /\ failed' = failed
 TSpec == TInit /\ [][Step]_tvars
 Report == (verdict[1] # "ok" \/ l > Len(T.ev)) => PrintT("VERDICT " \o ToString(<<tid, l - 1, verdict[1], verdict[2]>>))
